@@ -7,6 +7,7 @@ import PyamgV.Proofs.Pairwise
 import PyamgV.Proofs.ExtPairwise
 import PyamgV.Proofs.ExtC12LloydAgg
 import PyamgV.Proofs.ExtC12BalFirst
+import PyamgV.Proofs.ExtC12ZWrap
 
 /-! # C12 — aggregation routines return valid partitions of the strength graph
 
@@ -28,7 +29,12 @@ per cluster, centre selection, update of `d, p, pc`), the `while (changed1 or ch
 loop with its `ValueError` checks, `_elimination_penalty`, `_split_improvement`, `_rebalance` (recorded
 `argsort` orders), the rebalance rounds — run by the driver (`ext_c12_ballloyd`, `ext_c12_ballloyd_agg`,
 `ext_c12_center_nodes`) and compared exactly with `balanced_lloyd_cluster`, `balanced_lloyd_aggregation`
-(replayed permutation) and the rebuilt `center_nodes` kernel on every run. -/
+(replayed permutation) and the rebuilt `center_nodes` kernel on every run.
+Pairwise WRAPPER (extension E56): `C12ZW.wrapper` — `pairwise_aggregation(A, matchings, theta, norm)` of aggregate.py composed from
+the models of its parts: `classical_strength_of_connection` (`C14.pubClassicalNorm`), the kernel model `ExtPw.pairwise`,
+`T_temp`, SciPy's `T @ T_temp` and the Galerkin product `T_temp.T.tocsr() @ Ac @ T_temp` (`Spmm.mul / transpose /
+galerkin`: raw arrays), `Cpts[new_cpts]`, the `break` — run by the driver (`ext_c12z_pw`) and compared exactly with the real
+wrapper (raw arrays of `T`, `Cpts`, number of aggregates of every level) on integer matrices on every run. -/
 namespace PyamgV.Props.C12
 
 /-- ids are `-1` or `0..k-1`, `k ≤ n-1` (the `-n` sentinel never collides), unaggregated = exactly the
@@ -158,6 +164,32 @@ example : ExtPw.MatchChain 4 [fun v => [1,1,2,0].getD v 0, fun v => [0,1,1].getD
   .cons (n' := 3) (by decide) (ExtPw.fiberLe_of_bounded (n' := 3) (by decide) (by decide))
     (.cons (n' := 2) (by decide) (ExtPw.fiberLe_of_bounded (n' := 2) (by decide) (by decide))
       (.nil 2))
+
+/-! ### the wrapper `pairwise_aggregation` (E56): strength + kernel + Galerkin products composed -/
+
+/-- SciPy's product `T @ T_temp` (raw arrays of `csr_matmat`) of two assignment matrices is the assignment matrix of the
+composed map: one unit entry `(i, G (F i))` per row -/
+restate pairwise_wrapper_product := PyamgV.C12ZW.mul_assign
+/-- the composed wrapper model (`n >= 1`) returns a valid partition: its run is the chain of matchings `levels` lists
+(`1 <= |ls| <= matchings`, a `MatchChain`), `T` is the `n x k` assignment matrix of `composeAll (maps ls)` (one unit entry
+per row: every node in exactly one aggregate), `Cpts[a] < n` lies in aggregate `a` (no aggregate is empty) -/
+restate pairwise_wrapper_spec := PyamgV.C12ZW.wrapper_spec
+/-- the `2^m` bound for the composed model: every aggregate of the returned `T` has at most `2^matchings` nodes -/
+restate pairwise_wrapper_fiber := PyamgV.C12ZW.wrapper_fiber
+/-- the roots `Cpts` of the composed model are distinct -/
+restate pairwise_wrapper_roots_distinct := PyamgV.C12ZW.AccOK.roots_distinct
+/-- the loop after the first matching, from any accumulator `(T0, Cpts0)` -/
+restate pairwise_wrapper_loop := PyamgV.C12ZW.loop_spec
+
+/-! non-vacuity (wrapper): the 1D Poisson matrix on 4 nodes (the docstring example of `pairwise_aggregation`): one matching
+gives the aggregates `{0,1}`, `{2,3}` with roots 0, 3; two matchings give one aggregate with root 0 -/
+def pois4 : Spmm.Csr Rat := ⟨4, 4, #[0,2,5,8,10], #[0,1,0,1,2,1,2,3,2,3], #[2,-1,-1,2,-1,-1,2,-1,-1,2]⟩
+example : C12ZW.shapeOf (C12ZW.wrapper "min" (1/1000000) (1/4) 1 pois4) = some (4, 2, #[0,3]) := by decide +kernel
+example : C12ZW.arraysOf (C12ZW.wrapper "min" (1/1000000) (1/4) 1 pois4) =
+    some (#[0,1,2,3,4], #[0,0,1,1], #[1,1,1,1]) := by decide +kernel
+example : C12ZW.shapeOf (C12ZW.wrapper "min" (1/1000000) (1/4) 2 pois4) = some (4, 1, #[0]) := by decide +kernel
+example : C12ZW.arraysOf (C12ZW.wrapper "min" (1/1000000) (1/4) 2 pois4) =
+    some (#[0,1,2,3,4], #[0,0,0,0], #[1,1,1,1]) := by decide +kernel
 
 /-! ### interface facts regenerated from the working tree on every run (translator tie) -/
 /-- the `kernels_smoothed_aggregation` table the models assume equals the one regenerated from the source now -/
